@@ -42,6 +42,11 @@ def cases(tier, seed):
             out.append(dict(c, k='step_multiple', sim=s, K=2, keys=('name', 'wire')[len(out) % 2]))
             out.append(dict(c, k='vcd', sim=s, K=2))
             out.append(dict(c, k='print_trace', sim=s, K=3))
+    for kind_ in ('digits', 'mixed', 'odd'):
+        for s in SIMS:
+            out.append({'fam': 'VCDN', 'kind': kind_, 'k': 'vcd', 'sim': s, 'K': 2, 'seed': len(out)})
+            out.append({'fam': 'VCDN', 'kind': kind_, 'k': 'print_trace', 'sim': s, 'K': 3})
+            out.append({'fam': 'VCDN', 'kind': kind_, 'k': 'step_multiple', 'sim': s, 'K': 2, 'keys': ('name', 'wire')[len(out) % 2]})
     for s in ('sim', 'fast'):
         for w in (1, 3):
             for exc in ('custom', 'pyrtl', 'internal', 'value', 'lookup', 'runtime'):
@@ -124,6 +129,19 @@ def do_inspect(case, ob, site):
                 goals.append(('inspect(%s)==trace[-1]@%d' % (n, t), to_bv(e['inspect'][n], w.bitwidth + 2) == to_bv(e['last'][n], w.bitwidth + 2),
                               site + ':inspect'))
         ob.prove_all(goals, pc, v)
+
+
+def build_vcdn(d):
+    """names whose natural order (x2 < x10) differs from their lexicographic order, illegal VCD characters, distinct widths"""
+    names = {'digits': ['x2', 'x10', 'y9', 'y12'], 'mixed': ['a10b2', 'a2b10', 'o1', 'o01x'], 'odd': ['q.1', 'q%', 'r[3]', 'r[12]']}[d['kind']]
+    a, b = pyrtl.Input(2, names[0]), pyrtl.Input(3, names[1])
+    o1, o2 = pyrtl.Output(4, names[2]), pyrtl.Output(5, names[3])
+    o1 <<= a + b
+    o2 <<= pyrtl.concat(b, a) ^ 21
+    return pyrtl.working_block()
+
+
+designs.register_family('VCDN', build_vcdn)
 
 
 def _decoy_block():
